@@ -21,6 +21,7 @@ Definition re_space (c : Z) : bool := in_ranges re_space_ranges c.          (* \
 Definition re_digit (c : Z) : bool := in_ranges re_digit_ranges c.          (* \d *)
 Definition str_space (c : Z) : bool := in_ranges str_isspace_ranges c.      (* str.isspace *)
 Definition line_break (c : Z) : bool := in_ranges splitlines_break_ranges c.
+Definition int_strip (c : Z) : bool := in_ranges int_strip_ranges c.        (* stripped by int(str, base) *)
 Definition ascii_digit (c : Z) : bool := (48 <=? c) && (c <=? 57).          (* [0-9] *)
 Definition mem_z (c : Z) (l : list Z) : bool := existsb (Z.eqb c) l.
 
@@ -405,6 +406,17 @@ Fixpoint vtt_trace (v : vtt_vars) (items : list vtt_view) : list bool :=
 Definition vtt_calls (oracle : list sub_result) (content : text) : list bool :=
   vtt_trace (vtt_init oracle) (map vtt_classify (readlines content)).
 
+(* variant: the reader with `subtitle_text = ""` before the loop (the obvious repair of finding vtt-cue-without-payload).  The
+   correspondence accepts the code if all cases agree with one and the same variant, and reports which. *)
+Definition vtt_init_fixed (oracle : list sub_result) : vtt_vars :=
+  {| v_state := V_START; v_p := None; v_text_bound := true; v_oracle := oracle; v_calls := [] |}.
+Definition vtt_views_fixed (oracle : list sub_result) (items : list vtt_view) : outcome :=
+  match vtt_loop (vtt_init_fixed oracle) items with inr o => o | inl _ => OkDoc end.
+Definition vtt_run_fixed (oracle : list sub_result) (content : text) : outcome :=
+  vtt_views_fixed oracle (map vtt_classify (readlines content)).
+Definition vtt_calls_fixed (oracle : list sub_result) (content : text) : list bool :=
+  vtt_trace (vtt_init_fixed oracle) (map vtt_classify (readlines content)).
+
 (* executable triggers *)
 (* vtt-cue-without-payload (over-approximation): a line containing "-->" is followed by a blank line or by the end *)
 Fixpoint arrow_without_payload (items : list vtt_view) : bool :=
@@ -528,7 +540,7 @@ Fixpoint int_body (digit : Z -> bool) (prev_digit : bool) (s : text) : bool :=
   end.
 Definition strip_ws (f : Z -> bool) (s : text) : text := rev (drop_while f (rev (drop_while f s))).
 Definition int16_ok (w : text) : bool :=
-  let s := strip_ws str_space w in
+  let s := strip_ws int_strip w in
   let s := match s with c :: r => if (c =? 43) || (c =? 45) then r else s | [] => s end in
   match s with
   | z :: x :: r => if (z =? 48) && ((x =? 120) || (x =? 88))
